@@ -10,9 +10,12 @@ XYZ = 'xyz'
 def sm_masks(tier, seed):
     """scale/misalignment enable masks (9 bits). quick: a pairwise-covering handful; thorough: 64"""
     import random
-    base = [0b000000000, 0b111111111, 0b100010001, 0b010101010, 0b001100110, 0b110001100]
+    # structured masks first: none, all, diagonal, checkerboard, a single entry in output row x (index
+    # 0 is falsy!), one full row each, one column - then random ones
+    base = [0b000000000, 0b111111111, 0b100010001, 0b010101010, 0b000000001, 0b000000111, 0b000111000, 0b111000000,
+            0b001001001, 0b000000100, 0b001100110, 0b110001100]
     rng = random.Random(seed)
-    n = 4 if tier == 'quick' else 64
+    n = 10 if tier == 'quick' else 64
     masks = list(base)
     while len(masks) < n:
         m = rng.randrange(512)
@@ -346,6 +349,7 @@ def _mask_job(args):
             res['triv'] += 1
         else:
             hard.append(ob)
+    res['n_hard_distinct'] = len({ob.name for ob in hard})
     out = enga.discharge(hard, timeout_s=30 if tier == 'quick' else 120, pool=1, ctx=S.C)
     for ob, r in zip(hard, out):
         f = res['families'].setdefault(ob.family, [0, 0, 0.0])
@@ -381,7 +385,7 @@ def run(run):
     from .c05 import _mut_method
     box = {}
     rep = enga.AReport(run, box={'dt1': (0.01, 1), 'dt2': (0.01, 1)})
-    run.assume('exact real arithmetic; enable bits = signs of symbolic standard deviations (bias / walk / noise fork on every path; scale-misalignment masks are enumerated: %s)' % ('4 masks, two of them with the full obligation set' if run.tier == 'quick' else '64 masks'),
+    run.assume('exact real arithmetic; enable bits = signs of symbolic standard deviations (bias / walk / noise fork on every path; scale-misalignment masks are enumerated: %s)' % ('10 structured masks' if run.tier == 'quick' else '64 masks (12 structured + random)'),
                'np.linalg.solve is the explicit 3x3 adjugate/det solve, det(transform) != 0 assumed; rational identities decided after multiplying out the reciprocal',
                'RNG replaced by symbolic draws (coefficients of noise terms are read off); sample statistics of the generator are outside',
                'state-name comparison against Parameters.apply uses concrete non-nominal values on the enabled entries')
@@ -389,7 +393,7 @@ def run(run):
     n_paths = 0
     layouts = set()
     import multiprocessing as mp
-    jobs = [(mask, run.tier == 'quick' and k >= 2, run.tier, run.seed) for k, mask in enumerate(masks)]
+    jobs = [(mask, False, run.tier, run.seed) for k, mask in enumerate(masks)]
     with mp.get_context('fork').Pool(min(16, len(jobs))) as pool:
         results = pool.map(_mask_job, jobs, chunksize=1)
     specs = []
@@ -401,6 +405,7 @@ def run(run):
         for fam, (n, ok, secs) in res['families'].items():
             run.family(fam, n, ok, secs)
         run.cov['syntactically_discharged'] = run.cov.get('syntactically_discharged', 0) + res['triv']
+        run.cov['distinct_nontrivial'] = run.cov.get('distinct_nontrivial', 0) + res['n_hard_distinct']
         run.unknown += res['unknown']
         for smp in res['samples']:
             run.sample(smp)
@@ -423,6 +428,8 @@ def run(run):
                 run.violation('%s; real code: %s' % (c['name'], r.get('detail')), common.write_replay(PROP, spec))
             else:
                 run.error('obligation "%s" fails symbolically but the compiled code satisfies the numeric oracle - inconclusive' % c['name'])
+    run.cov['rule'] = ('evaluations = obligations generated over all mask paths; distinct_nontrivial = distinct obligation names (mask tag included) '
+                       'whose negation did not simplify to false syntactically and was decided by the normal form or the solver (counted per mask job)')
     run.cov['mask_paths'] = n_paths
     run.cov['distinct_masks'] = len(layouts)
     run.witness('both admissible and raising masks were reached', n_paths > 100)
